@@ -15,7 +15,9 @@
 //! `c10_check <v> <S> <R> <n> <key>` -> `true|false`: `KeyGenerator::from_key(&ViewPair{v, S}, R).check(n, key)`;
 //! `c10_rvn <v> <R> <n>` -> scalar: `KeyGenerator::from_key(&ViewPair{v, ..}, R).get_rvn_scalar(n)`;
 //! `c10_derive_raw <a> <32 bytes>` -> point: `from_key` on `PublicKey { point: CompressedEdwardsY(bytes) }` built through the PUBLIC
-//!   field (no `from_slice` validation; panics inside `point()` if the bytes do not decompress) — no Lean side;
+//!   field (no `from_slice` validation; `PANIC` — caught here, message dropped — if `point()` panics because the bytes do not
+//!   decompress); Lean model side `deriveReceiverBytes refOps decPerm a b` (Model/Crypto.lean: both `point()` calls with dalek's permissive
+//!   decompression), no spec side;
 //! `c10_subcheck <v> <S> <majLo> <majHi> <minLo> <minHi> <R> <n> <key>` -> `none` | `<i>/<j>`: `SubKeyChecker::new(&ViewPair{v, S}, ..).check(n, &key, &R)`;
 //! `c09_scan_tx <v> <s> <majLo> <majHi> <minLo> <minHi> <tx>` -> `err <kind>` | `ok <k> <index>:<i>/<j>:<x>…`: `Transaction::check_outputs`
 //!   for the wallet (v, s·G), then `OwnedTxOut::recover_key(&KeyPair{v, s})` on every reported output;
@@ -186,7 +188,7 @@ pub fn exec(t: &[&str]) -> Option<String> {
             (Some(a), Some(w)) => {
                 let mut arr = [0u8; 32]; arr.copy_from_slice(&w);
                 let key = PublicKey { point: CompressedEdwardsY(arr) };
-                hex(&KeyGenerator::from_key(&ViewPair { view: a, spend: key }, key).rv.to_bytes())
+                match guarded(move || KeyGenerator::from_key(&ViewPair { view: a, spend: key }, key).rv.to_bytes()) { Ok(r) => hex(&r), Err(_) => "PANIC".into() }
             }
             _ => e(),
         },
@@ -444,15 +446,24 @@ pub fn run_c10(o: &mut Out, tier: &str, seed: u64) {
         o.direct(got == "err", "c10: a consensus-form key of the wrong length is rejected", w, got, "err".into());
     }
     // `PublicKey` built through its public field (no validation): when the bytes decompress the derivation is still 8a*B
-    // (also for a non-canonical encoding); when they do not, `point()` panics — recorded, not judged
+    // (also for a non-canonical encoding); when they do not, `point()` panics. Every line is also compared with the Lean byte-level model
+    // `deriveReceiverBytes` (permissive decoder, `PANIC` for `none`) by check.py. Inputs: the literal ones, all 19 non-canonical
+    // y = p + k (k < 19) with either sign bit, and random 32-byte strings (about half of them do not decompress).
     let asc = rand_scalar(&mut rng);
-    for w in ["edffffffffffffffffffffffffffffffffffffffffffffffffffffffffffff7f".to_string(), "0100000000000000000000000000000000000000000000000000000000000080".to_string(),
-              "0200000000000000000000000000000000000000000000000000000000000000".to_string(), bt.clone()] {
+    let mut raws: Vec<String> = vec!["edffffffffffffffffffffffffffffffffffffffffffffffffffffffffffff7f".to_string(), "0100000000000000000000000000000000000000000000000000000000000080".to_string(),
+              "0200000000000000000000000000000000000000000000000000000000000000".to_string(), bt.clone()];
+    for k in 0..19u8 {
+        let mut w = [0xffu8; 32]; w[0] = 0xed + k; w[31] = if rng.below(2) == 0 { 0x7f } else { 0xff };
+        raws.push(hex(&w));
+    }
+    for _ in 0..(if tier == "thorough" { 60 } else { 10 }) { let w = rng.arr32(); raws.push(hex(&w)); }
+    for w in raws {
         let got = o.op(format!("c10_derive_raw {} {}", sh(&asc), w), false);
         let mut arr = [0u8; 32]; arr.copy_from_slice(&unhex(&w));
+        let canonical = CompressedEdwardsY(arr).decompress().map(|p| p.compress().to_bytes() == arr).unwrap_or(false);
         match CompressedEdwardsY(arr).decompress() {
-            Some(b) => { o.stat("c10.raw-field-key.decompresses"); o.direct(got == ph(&derivation(&asc, &b)), "c10: derivation from an unvalidated PublicKey whose bytes decompress == 8a*B [dalek]", w, got, ph(&derivation(&asc, &b))); }
-            None => { o.stat(if got.starts_with("PANIC") { "c10.raw-field-key.panics" } else { "c10.raw-field-key.no-panic" }); }
+            Some(b) => { o.stat(if canonical { "c10.raw-field-key.decompresses.canonical" } else { "c10.raw-field-key.decompresses.NONCANONICAL" }); o.direct(got == ph(&derivation(&asc, &b)), "c10: derivation from an unvalidated PublicKey whose bytes decompress == 8a*B [dalek]", w, got, ph(&derivation(&asc, &b))); }
+            None => { o.stat("c10.raw-field-key.panics"); o.direct(got == "PANIC", "c10: from_key on an unvalidated PublicKey whose bytes do not decompress panics in point() [dalek decompress == None]", w, got, "PANIC".into()); }
         }
     }
 }
